@@ -9,6 +9,7 @@
 using namespace vg;
 
 static bool gThorough = false;
+static std::string gPass;
 
 static Spec scaled(const Spec &s, long long sx, long long sy, long long tx, long long ty) {
   Spec r = s;
@@ -122,6 +123,11 @@ static void enumerateAll(const std::function<void(const Spec &)> &f) {
       }
     }
   };
+  if (gPass == "memcheck") {
+    // valgrind memcheck pass (uses of uninitialised memory are undefined behaviour too): degenerate shapes at three magnitudes, every stage
+    for (auto &s : shapeAlphabet()) emit(s, false, true, false);
+    return;
+  }
   // 1. hand-written degenerate shapes: every magnitude, every stage, every single parameter deviation
   for (auto &s : shapeAlphabet()) emit(s, true, true, true);
   // 2. global-placement alphabet
@@ -190,6 +196,7 @@ static vf::Verdicts eval(const Spec &s, vf::Ctx &ctx) {
 int main(int argc, char **argv) {
   vf::Opts o = vf::parseOpts(argc, argv);
   gThorough = o.thorough();
+  gPass = o.pass;
   vf::Check<Spec> c;
   c.property = "C07";
   c.level = "exploration";
@@ -201,12 +208,12 @@ int main(int argc, char **argv) {
       "); oracle = worker fate (sanitizer report, assertion, signal, hang); every case is distinct and counts as non-trivial (it runs a placement)";
   c.bounds = gThorough ? "full alphabets" : "1/5 of the GP alphabet, reduced magnitudes";
   c.assumptions = {"UBSan groups: gcc default 'undefined' (no float-cast-overflow / float-divide-by-zero)",
-                   "termination is decided up to the per-instance limit (20 s, 200 s on the solitary re-run)"};
+                   "termination is decided up to the per-instance limit (10 s, 100 s on the solitary re-run)"};
   c.enumerate = enumerateAll;
   c.encode = [](const Spec &s) { return encode(s); };
   c.decode = [](const std::string &s) { return decode(s); };
   c.eval = eval;
-  c.instanceTimeout = 20;
+  c.instanceTimeout = gPass == "memcheck" ? 300 : 10;
   c.deadline = gThorough ? 3000 : 400;
   return vf::runCheck(o, c);
 }
